@@ -7,6 +7,17 @@ use crate::stats::Stats;
 use num_bigint::BigUint;
 use vcore::*;
 
+/// Cost control for division on the 70 400-bit fixed type (bva divides bit by bit over 1100
+/// words: half a second at full length): dividends of that type are cut to this many bits.
+pub const HUGE_DIV_MAX: usize = 4200;
+
+pub fn clamp_huge_dividend(a: &mut Operand) {
+    if a.ty == TID_HUGE && a.bits.len() > HUGE_DIV_MAX {
+        let keep = HUGE_DIV_MAX - a.bits.len() % 131;
+        a.bits.0.truncate(keep);
+    }
+}
+
 pub fn strength(st: &Stats) -> Strength {
     if st.light {
         Strength::Light
@@ -139,7 +150,7 @@ pub fn model_bin(a: &Bits, b: &Bits, op: BinOp) -> Option<Bits> {
 /// capacity and heap-mode-although-short for the two unbounded types.
 pub fn scope_provs(t: Tid) -> Vec<Prov> {
     if t == TID_D || t == TID_A {
-        vec![Prov::Canon, Prov::Spare(200), Prov::LongThenTrunc(200)]
+        vec![Prov::Canon, Prov::Spare(200), Prov::LongThenTrunc(200), Prov::HugeSpare(300_000)]
     } else {
         vec![Prov::Canon]
     }
